@@ -26,6 +26,8 @@ type LoadConfig struct {
 }
 
 type Program struct {
+	poolMu   sync.Mutex
+	pool     map[string][]*interpreter
 	Prog     *ssa.Program
 	Pkgs     []*ssa.Package // the pattern packages
 	ByPath   map[string]*ssa.Package
@@ -307,7 +309,7 @@ func (p *Program) Explore(opts RunOpts) (*RunResult, error) {
 				if i == nil {
 					var warns []string
 					var err error
-					i, warns, err = p.newInterp(opts)
+					i, warns, err = p.acquireInterp(opts)
 					if err != nil {
 						mu.Lock()
 						if firstErr == nil {
@@ -383,12 +385,12 @@ func (p *Program) Explore(opts RunOpts) (*RunResult, error) {
 			}
 			if i != nil {
 				mu.Lock()
-				res.Queries += i.solver.Queries
-				res.QSat += i.solver.NSat
-				res.QUnsat += i.solver.NUnsat
-				res.QUnknown += i.solver.NUnk
-				res.SolverTime += i.solver.Time
-				res.ModelTime += i.solver.ModelTime
+				res.Queries += i.solver.Queries - i.base.q
+				res.QSat += i.solver.NSat - i.base.sat
+				res.QUnsat += i.solver.NUnsat - i.base.unsat
+				res.QUnknown += i.solver.NUnk - i.base.unk
+				res.SolverTime += i.solver.Time - i.base.t
+				res.ModelTime += i.solver.ModelTime - i.base.mt
 				for f := range i.funcsSym {
 					res.FuncsSym[f.String()] = true
 				}
@@ -408,7 +410,7 @@ func (p *Program) Explore(opts RunOpts) (*RunResult, error) {
 					res.UninitReads[k] = true
 				}
 				mu.Unlock()
-				i.solver.Close()
+				p.releaseInterp(opts, i)
 			}
 		}(w)
 	}
@@ -547,4 +549,59 @@ func HarnessOverlay(hdir, repoDir, rel string) (map[string][]byte, error) {
 	}
 	ov[filepath.Join(repoDir, rel, "zz_verif_prims.go")] = []byte(strings.Replace(string(tmpl), "package PKGNAME", "package "+pkgName, 1))
 	return ov, nil
+}
+
+type solverBase struct {
+	q, sat, unsat, unk int
+	t, mt              time.Duration
+}
+
+func poolKey(opts RunOpts) string {
+	return opts.PkgPath + "|" + strings.Join(opts.TargetPkgs, ",") + "|" + strings.Join(opts.Known, ",") + "|" + opts.Solver + fmt.Sprint(opts.TimeoutMs, opts.Trace)
+}
+
+func (p *Program) acquireInterp(opts RunOpts) (*interpreter, []string, error) {
+	p.poolMu.Lock()
+	if p.pool == nil {
+		p.pool = map[string][]*interpreter{}
+	}
+	k := poolKey(opts)
+	if l := p.pool[k]; len(l) > 0 {
+		i := l[len(l)-1]
+		p.pool[k] = l[:len(l)-1]
+		p.poolMu.Unlock()
+		i.stepBudget = opts.StepBudget
+		i.base = solverBase{i.solver.Queries, i.solver.NSat, i.solver.NUnsat, i.solver.NUnk, i.solver.Time, i.solver.ModelTime}
+		i.funcsSym = map[*ssa.Function]bool{}
+		i.intercepted = map[string]int{}
+		i.decSites = map[string]int{}
+		i.stubsUsed = map[string]bool{}
+		return i, nil, nil
+	}
+	p.poolMu.Unlock()
+	return p.newInterp(opts)
+}
+
+func (p *Program) releaseInterp(opts RunOpts, i *interpreter) {
+	// a term table that grew large is dropped together with its interpreter
+	if i.tt.next > 2_000_000 {
+		i.solver.Close()
+		return
+	}
+	p.poolMu.Lock()
+	k := poolKey(opts)
+	p.pool[k] = append(p.pool[k], i)
+	p.poolMu.Unlock()
+}
+
+// Close terminates all pooled solver processes.
+func (p *Program) Close() {
+	p.poolMu.Lock()
+	defer p.poolMu.Unlock()
+	for _, l := range p.pool {
+		for _, i := range l {
+			i.solver.Close()
+		}
+	}
+	p.pool = nil
 }
